@@ -104,14 +104,28 @@ fn call<N: NodePersistence>(node: &mut N, op: &Op) -> String {
         Op::ReadMap(..) => match node.read_map(id) {
             Ok(mut it) => {
                 let mut entries: Vec<(Vec<u8>, Vec<u8>)> = vec![];
-                while let Some((k, v)) = it.consume_next().expect("consume_next") {
-                    entries.push((k.to_vec(), v.to_vec()));
+                let mut failed = false;
+                loop {
+                    match it.consume_next() {
+                        Ok(Some((k, v))) => entries.push((k.to_vec(), v.to_vec())),
+                        Ok(None) => break,
+                        // an error while reading back entries that were written: reported as a result the
+                        // model never gives for a readable map
+                        Err(_) => {
+                            failed = true;
+                            break;
+                        }
+                    }
                 }
                 entries.sort();
-                format!(
-                    "REntries {}",
-                    coq_list(entries.iter().map(|(k, v)| format!("({}, {})", coq_bytes(k), coq_bytes(v))))
-                )
+                if failed {
+                    "RInvalid".into()
+                } else {
+                    format!(
+                        "REntries {}",
+                        coq_list(entries.iter().map(|(k, v)| format!("({}, {})", coq_bytes(k), coq_bytes(v))))
+                    )
+                }
             }
             Err(StoreError::InvalidOperation) => "RInvalid".into(),
             Err(e) => panic!("unexpected store error {:?}", e),
